@@ -1054,7 +1054,7 @@ class Authenticated(BaseClientHandler):
         #
         results: list[tuple[str, set[str], set[str] | None]] = []
         async for mbox_name, attributes, child_info in Mailbox.list(
-            cmd.mailbox_name,
+            cmd.list_reference,
             cmd.list_mailbox,
             self.server,
             lsub,
